@@ -299,7 +299,7 @@ inductive PropCond where
   | versIn (ns : List Nat)      -- `vers_num in (…)`
   | isLightmap                  -- `version.is_lightmap`
   | isSdk2013                   -- `version.is_sdk_2013`
-  | isVer (name : String)       -- `version is StaticPropVersion.<name>`
+  | isVer (name : List Char)    -- `version is StaticPropVersion.<name>`
   | and (a b : PropCond)
   | or (a b : PropCond)
   | not (a : PropCond)
@@ -308,13 +308,15 @@ deriving Repr
 
 /-- A member of `StaticPropVersion`. -/
 structure PropVersion where
-  name : String
+  name : List Char
   version : Nat
   size : Nat
 deriving Repr, DecidableEq
 
-def PropVersion.isLightmap (v : PropVersion) : Bool := v.name.startsWith "V_LIGHTMAP"
-def PropVersion.isSdk2013 (v : PropVersion) : Bool := v.name.startsWith "V_LIGHTMAP_v"
+def PropVersion.isLightmap (v : PropVersion) : Bool :=
+  ['V', '_', 'L', 'I', 'G', 'H', 'T', 'M', 'A', 'P'].isPrefixOf v.name
+def PropVersion.isSdk2013 (v : PropVersion) : Bool :=
+  ['V', '_', 'L', 'I', 'G', 'H', 'T', 'M', 'A', 'P', '_', 'v'].isPrefixOf v.name
 /-- `vers_num` after `if version.is_lightmap: vers_num = 7`. -/
 def PropVersion.versNum (v : PropVersion) : Nat := if v.isLightmap then 7 else v.version
 
